@@ -155,7 +155,7 @@ def lit_text(v):
             s = s.replace("e", "e+")
         return s if ("." in s or "e" in s) else s + ".0"
     if isinstance(v, str):
-        if '"' in v or "\\" in v or "\n" in v:
+        if '"' in v or "\\" in v or "\n" in v or "\0" in v:
             return None
         return '"' + v + '"'
     if isinstance(v, list):
@@ -2162,6 +2162,11 @@ def run_C12(ctx):
         fl_["store/r0.guard"] = files["rd/r0.guard"]
         fl_["rd/r0.guard"] = {"symlink": "store/r0.guard"}
         s["dir_link"] = add({"argv": ["validate", "-r", "{DIR}/rd", "-d", "{DIR}/dd", "-a"] + sflags, "files": fl_})
+        # relative directory arguments from inside the data directory (`-d .`), and files below dot-directories: the walk
+        # finds the same files as the explicit arguments do
+        s["dir_dot"] = add({"argv": ["validate", "-r", "../rd", "-d", ".", "-a"] + sflags, "files": files, "cwd_sub": "dd"})
+        fh_ = {("rd/.base/r0.guard" if k_ == "rd/r0.guard" else "dd/.stage/d0.json" if k_ == "dd/d0.json" else k_): v_ for k_, v_ in files.items()}
+        s["dir_hidden"] = add({"argv": ["validate", "-r", "{DIR}/rd", "-d", "{DIR}/dd", "-a"] + sflags, "files": fh_})
         mt = {name: 1700000000 + rng.randrange(100000) for name in files}
         s["dir_m"] = add({"argv": ["validate", "-r", "{DIR}/rd", "-d", "{DIR}/dd", "-m"] + sflags, "files": files, "mtimes": mt})
         s["mt"] = mt
@@ -2230,7 +2235,7 @@ def run_C12(ctx):
         pm = reports(outs[s["perm"]])
         if pm != expected(s["perm_r"]):
             res.judge_failures.append(dict(info, what="giving the files in another order changes a pair's result", **{"class": "c12-order"}))
-        for key in ("dir_a", "dir_m", "dir_link"):
+        for key in ("dir_a", "dir_m", "dir_link", "dir_dot", "dir_hidden"):
             dr = reports(outs[s[key]])
             if dr is None:
                 res.judge_failures.append(dict(info, what="directory run %s failed: exit %s %s" % (key, outs[s[key]]["code"], outs[s[key]]["stderr"][:200]), **{"class": "c12-dir"}))
@@ -2382,6 +2387,12 @@ def c12_test_cases(ctx, res, rng):
         specs = [{"name": "case%d" % k, "input": d,
                   "expectations": {"rules": ({} if rng.random() < 0.45 else {nm: rng.choice(["PASS", "FAIL", "SKIP"]) for nm in allnames if rng.random() < 0.8})}}
                  for k, d in enumerate(docs)]
+        if i % 3 == 1:
+            for sp in specs:          # cases without a name (the field is optional) ..
+                del sp["name"]
+        elif i % 3 == 2:
+            for sp in specs:          # .. or sharing one
+                sp["name"] = "smoke"
         sc = {"rules": rules, "specs": specs, "jobs": {}}
         for fmt in ("plain", "json", "yaml", "junit"):
             oargs = [] if fmt == "plain" else ["-o", fmt]
@@ -2429,7 +2440,7 @@ def c12_test_cases(ctx, res, rng):
             k = next((j for j in range(min(len(call), len(cone))) if call[j] != cone[j]), None)
             res.judge_failures.append(dict(info, what="test case %s evaluated in a file with %d cases gives %s, alone %s" % (
                 k, len(cone), call[k] if k is not None else len(call), cone[k] if k is not None else len(cone)), **{"class": "c12-test-case"}))
-        if sorted(crev, key=lambda c: c["name"]) != sorted(call, key=lambda c: c["name"]):
+        if sorted(crev, key=lambda c: json.dumps(c, sort_keys=True)) != sorted(call, key=lambda c: json.dumps(c, sort_keys=True)):
             res.judge_failures.append(dict(info, what="the order of the test cases in the file changes a case's result", **{"class": "c12-test-order"}))
         want_exit = 7 if any(c["failed"] for c in cone) else 0
         for fmt in ("plain", "json", "yaml", "junit"):
@@ -3109,7 +3120,7 @@ def strip_loc(t):
 
 def c11_doc(g):
     d = g.doc(depth=3)
-    extra = {"digits": "0123", "kw": g.ch(["true", "null", "~", "yes", "no", "on", "1e3", "0x1F", ".5", "-", "", " lead", "a: b", "#c", "é ü"]),
+    extra = {"digits": "0123", "kw": g.ch(["true", "null", "~", "yes", "no", "on", "1e3", "0x1F", ".5", "-", "", " lead", "a: b", "#c", "é ü", "x\0y", "\0"]),
              "i": g.ch([0, -1, 10 ** 15, 9223372036854775807, -9223372036854775808]), "f": g.ch([0.5, 1e308, 5e-324, -2.5, 10.0, 1e21])}
     for k in g.r.sample(list(extra), g.ch([1, 2, 3])):
         d[k] = extra[k]
@@ -3153,6 +3164,7 @@ def run_C11(ctx):
                  "payload vs its long form under both loaders; malformed texts and non-string keys must be rejected; "
                  "non-trivial = distinct (document, serialisation, loader) that loaded")
     import yaml as _yaml
+    import re as _re0
     n = 3000 if ctx.thorough() else 300
     reqs, meta = [], []
     docs = []
@@ -3218,6 +3230,49 @@ def run_C11(ctx):
         elif r["impl"].get("kind") == "err" and r["impl"].get("err") != "ParseError":
             res.judge_failures.append({"what": "comparing a document with its own literal raised %s" % r["impl"].get("err"),
                                        "class": "c11-literal", "rules": r["case"]["rules"], "data": r["case"]["data"]})
+    # the `validate` command itself (its own reading of the data file) on block YAML whose last node is a block scalar, with
+    # the root mapping optionally indented, against the JSON form of the same document and against run_checks
+    vjobs, vmeta = [], []
+    for di, d in enumerate(docs[: (600 if ctx.thorough() else 120)]):
+        k0 = next((k for k in d if _re0.fullmatch(r"[A-Za-z][A-Za-z0-9]*", k)), None)
+        blk = next((t for (i2, sn, ld, t) in meta if i2 == di and sn == "yaml-block" and ld == "libyaml"), None)
+        if blk is None or k0 is None or "ztail" in d:
+            continue
+        tail, tv = [("ztail: |\n  hello\n", "hello\n"), ("ztail: |+\n  hello\n\n", "hello\n\n"), ("ztail: >\n  hello\n", "hello\n"),
+                    ("ztail: |-\n  hello\n", "hello")][di % 4]
+        text = blk + tail
+        if (di // 4) % 2 == 1:
+            text = "".join("   " + ln if ln.strip() else ln for ln in text.splitlines(True))
+        try:
+            if _yaml.safe_load(text).get("ztail") != tv:
+                continue
+        except Exception:
+            continue
+        vrules = "rule tail_nl { ztail == /^hello\\n$/ }\nrule tail_nl2 { ztail == /^hello\\n\\n$/ }\nrule tail_bare { ztail == \"hello\" }\nrule first_key { %s exists }\n" % k0
+        want = [["tail_nl", "PASS" if tv == "hello\n" else "FAIL"], ["tail_nl2", "PASS" if tv == "hello\n\n" else "FAIL"],
+                ["tail_bare", "PASS" if tv == "hello" else "FAIL"], ["first_key", "PASS"]]
+        jtext = json.dumps(dict(d, ztail=tv))
+        for form, t in (("yaml-block", text), ("json", jtext)):
+            vjobs.append({"id": len(vjobs), "op": "cli", "argv": ["validate", "-r", "{DIR}/r.guard", "-d", "{DIR}/d.yaml", "--structured", "-o", "json", "-S", "none"],
+                          "files": {"r.guard": vrules, "d.yaml": t}})
+            vmeta.append((di, form, t, vrules, want))
+    for (di, form, t, vrules, want), r in zip(vmeta, ctx.hp.map(vjobs, timeout=60)):
+        res.evaluations += 1
+        res.stats["c11-validate-command:" + form] += 1
+        code = (r.get("result") or {}).get("code")
+        info = {"rules": vrules, "data": t, "class": "c11-validate-command"}
+        if code not in (0, 19):
+            res.judge_failures.append(dict(info, what="`validate` did not evaluate a well-formed %s document (exit %s): %s" % (form, code, (r.get("stderr") or "")[:200])))
+            continue
+        try:
+            P_ = partition_of_report(json.loads(r["stdout"])[0])
+            got = [[nm, st] for nm, _ in want for st in ("PASS", "FAIL", "SKIP") if nm in P_[st]]
+        except Exception as e:
+            res.judge_failures.append(dict(info, what="`validate` report unreadable: %s" % e))
+            continue
+        res.nontrivial.add(("validate", di, form))
+        if got != want:
+            res.judge_failures.append(dict(info, what="`validate` read the %s document differently from its YAML meaning: rule statuses %s, expected %s" % (form, got, want)))
     # tags: exhaustive over the table
     from extract import read, strip_comments
     import re as _re
